@@ -95,6 +95,20 @@ impl Scenario for C03 {
         if run < 8 {
             return sweep_lengths(seed, run, tier);
         }
+        // thorough tier, last two runs: an implicit assertion of 2^31 + 5 bytes (the length prefixes of the
+        // pre-authentication encoding beyond 32 bits); one token per backend pair, checked by the reference
+        if tier == Tier::Thorough && run >= 119_998 {
+            let nodes = if run == 119_998 { vec![Bk::V4, Bk::V4Na] } else { vec![Bk::V3Lc, Bk::V3] };
+            let f = nodes[0].family();
+            let mut b = Builder::new("C03", seed, run, nodes.clone());
+            let fk = b.family_keys(f, false).unwrap();
+            let now = Ns(b.now_ns);
+            let tok = b.tok_slot();
+            let rng = b.healthy_rng();
+            b.push(Step::Seal { tok, node: 0, key: fk.local, purpose: Purp::Local, claims: ClaimsSpec::Raw { bytes: Bytes::hex(b"huge assertion") }, footer: FootSpec::Unit, aad: Bytes::Fill { len: (1usize << 31) + 5, byte: 0 }, nonce: None, alias: false, rng, now_ns: now });
+            b.push(Step::Deliver { tok, node: 1, key: fk.local, purpose: None, faults: vec![], pk: None, fk: None, validator: VSpec::None, alias: false, now_ns: now, pair_with: None });
+            return b.finish();
+        }
         let mut r0 = crate::prng::Rng::derive(seed, "c03-nodes", run);
         let (f, nodes) = family_nodes(&mut r0);
         let mut b = Builder::new("C03", seed, run, nodes.clone());
@@ -345,11 +359,29 @@ impl Scenario for C07 {
         vec!["k1.seal (raw RSA-KEM) cannot be recomputed by a second provider offline".into(), "PBKW parallelism is kept at 1 (libsodium cannot do otherwise)".into()]
     }
     fn adopts(&self, v: &crate::world::Violation) -> bool {
-        matches!((v.property, v.class.as_str()), ("C05", "authentic-blob-rejected" | "roundtrip-mismatch" | "wrap-failed" | "wrong-blob-length-or-header"))
+        // ... and a principal whose honest key this backend refuses to import cannot open conforming blobs
+        matches!((v.property, v.class.as_str()), ("C05", "authentic-blob-rejected" | "roundtrip-mismatch" | "wrap-failed" | "wrong-blob-length-or-header") | ("C08", "honest-key-rejected"))
     }
     fn plan(&self, seed: u64, run: u64, tier: Tier) -> Plan {
         if run < 4 {
             return sweep_passwords(seed, run, tier);
+        }
+        // thorough tier, last run: Argon2id with 4 GiB and 4 GiB + 64 KiB (byte counts at and just above 2^32):
+        // written by paseto-v4, recomputed by the reference, read by both backends
+        if tier == Tier::Thorough && run == 99_999 {
+            let nodes = vec![Bk::V4, Bk::V4Na];
+            let mut b = Builder::new("C07", seed, run, nodes.clone());
+            let fk = b.family_keys(4, false).unwrap();
+            for mem in [1u64 << 32, (1 << 32) + 65536] {
+                let blob = b.blob_slot();
+                let rng = b.healthy_rng();
+                let with = SecretRef::Password { bytes: Bytes::hex(b"four gigabytes") };
+                b.push(Step::Wrap { blob, node: 0, wk: WrapKind::Pw, key: fk.local, with: with.clone(), params: PwParams::Argon(mem, 1, 1), rng });
+                for node in 0..2 {
+                    b.push(Step::Unwrap { blob, node, with: with.clone(), faults: vec![], as_kind: None });
+                }
+            }
+            return b.finish();
         }
         if run % 8 == 7 {
             return super::soup::soup_plan("C07", seed, run, tier);
